@@ -1,11 +1,129 @@
-/- Oracle operations, group Script (see /verif/CONVENTIONS.md). -/
+/- Oracle operations, group Script (property C12; `script.strip` is also used by C03).
+   See /verif/CONVENTIONS.md and DESIGN.md appendix A.
+
+   Canonical forms: bytes lower-case hex (`-` empty); a list of byte strings is comma separated,
+   the empty list is `.`; chunks are `op:<hex byte>` / `push:<hex>`; integers decimal. -/
 import BtcVerif.Oracle.Util
+import BtcVerif.Model.Script
+import BtcVerif.Prim.SHA256
+import BtcVerif.Prim.RIPEMD160
 
 namespace BtcVerif.Oracle
-open BtcVerif
+open BtcVerif BtcVerif.Model
+
+namespace ScriptOps
+
+def listStr (xs : List String) : String := if xs.isEmpty then "." else joinWith "," xs
+
+def parseHexList (s : String) : Option (List Bytes) :=
+  if s == "." then some [] else (s.splitOn ",").mapM parseHex
+
+def chunkStr : Chunk → String
+  | .op b => "op:" ++ hexOf [b]
+  | .push d => "push:" ++ hexOf d
+
+def formatStr : Format → String
+  | .p2pkh => "P2PKH" | .p2sh => "P2SH" | .p2wpkh => "P2WPKH" | .p2wsh => "P2WSH"
+  | .nonstandard => "NONSTANDARD"
+
+def withRest {α} (f : α → String) : Outcome (α × Bytes) → String
+  | .ok (a, rest) => s!"ok {f a} rest={hexOf rest}"
+  | .err => "err"
+  | .panic => "panic"
+
+def parseInt (s : String) : Option Int := s.toInt?
+
+def boolStr (b : Bool) : String := if b then "true" else "false"
+
+end ScriptOps
+open ScriptOps
 
 def opScript (op : String) (args : List String) : Option String :=
   match op, args with
+  | "push.data", [h] => do
+    let d ← parseHex h
+    some (outcomeStr hexOf (pushData d))
+  | "read.data", [h] => do
+    let s ← parseHex h
+    some (withRest hexOf (readData s))
+  | "push.num", [n] => do
+    let v ← parseInt n
+    some (outcomeStr hexOf (pushNumber v))
+  | "read.num", [h] => do
+    let s ← parseHex h
+    some (withRest (fun (v : Int) => toString v) (readNumber s))
+  | "script.decompile", [h] => do
+    let s ← parseHex h
+    some (outcomeStr (fun cs => listStr (cs.map chunkStr)) (decompile s))
+  | "script.stackify", [h] => do
+    let s ← parseHex h
+    some (outcomeStr (fun xs => listStr (xs.map hexOf)) (stackify s))
+  | "script.strip", [h, o] => do
+    let s ← parseHex h
+    let v ← o.toNat?
+    if v ≥ 256 then none else
+    some (outcomeStr hexOf (stripOpCode s (UInt8.ofNat v)))
+  | "tpl.make", [kind, h] => do
+    let d ← parseHex h
+    match kind with
+    | "p2pkh" => if d.length = 20 then some (outcomeStr hexOf (makeP2PKH d)) else none
+    | "p2sh" => if d.length = 20 then some (outcomeStr hexOf (makeP2SH d)) else none
+    | "p2wpkh" => if d.length = 20 then some (outcomeStr hexOf (makeP2WPKH d)) else none
+    | "p2wsh" => if d.length = 32 then some (outcomeStr hexOf (makeP2WSH d)) else none
+    | _ => none
+  | "tpl.makefrom", [kind, h] => do
+    let d ← parseHex h
+    match kind with
+    | "p2pkh" => some (outcomeStr hexOf (makeP2PKHFromPublicKey Prim.hash160 d))
+    | "p2wpkh" => some (outcomeStr hexOf (makeP2WPKHFromPublicKey Prim.hash160 d))
+    | "p2sh" => some (outcomeStr hexOf (makeP2SH (Prim.hash160 d)))      -- MakeP2SHFromScript
+    | "p2wsh" => some (outcomeStr hexOf (makeP2WSH (Prim.sha256 d)))     -- MakeP2WSHFromScript
+    | _ => none
+  | "tpl.is", [kind, h] => do
+    let s ← parseHex h
+    match kind with
+    | "p2pkh" => some (outcomeStr boolStr (isP2PKH s))
+    | "p2sh" => some (outcomeStr boolStr (isP2SH s))
+    | "p2wpkh" => some (outcomeStr boolStr (isP2WPKH s))
+    | "p2wsh" => some (outcomeStr boolStr (isP2WSH s))
+    | _ => none
+  | "tpl.decode", [kind, h] => do
+    let s ← parseHex h
+    match kind with
+    | "p2pkh" => some (outcomeStr hexOf (decodeP2PKH s))
+    | "p2sh" => some (outcomeStr hexOf (decodeP2SH s))
+    | "p2wpkh" => some (outcomeStr hexOf (decodeP2WPKH s))
+    | "p2wsh" => some (outcomeStr hexOf (decodeP2WSH s))
+    | _ => none
+  | "tpl.classify", [h] => do
+    let s ← parseHex h
+    some (outcomeStr formatStr (classify s))
+  | "p2ms", [m, ks] => do
+    let mv ← m.toNat?
+    let keys ← parseHexList ks
+    some (outcomeStr hexOf (makeP2MS mv keys))
+  | "opreturn", [h] => do
+    let d ← parseHex h
+    some (outcomeStr hexOf (makeOpReturn d))
+  | "redeem.p2pkh", [a, b] => do
+    let sig ← parseHex a
+    let pk ← parseHex b
+    some (outcomeStr hexOf (redeemP2PKH sig pk))
+  | "redeem.p2sh", [a, b] => do
+    let spk ← parseHex a
+    let redeem ← parseHex b
+    some (outcomeStr hexOf (redeemP2SH spk redeem))
+  | "redeem.p2ms", [l] => do
+    let sigs ← parseHexList l
+    some (outcomeStr hexOf (redeemP2MS sigs))
+  | "witness.p2wpkh", [a, b] => do
+    let sig ← parseHex a
+    let pk ← parseHex b
+    some s!"ok {listStr ((witnessP2WPKH sig pk).map hexOf)}"
+  | "witness.p2wsh", [a, b] => do
+    let spk ← parseHex a
+    let redeem ← parseHex b
+    some (outcomeStr (fun xs => listStr (xs.map hexOf)) (witnessP2WSH spk redeem))
   | _, _ => none
 
 end BtcVerif.Oracle
